@@ -568,8 +568,38 @@ func (r *router) forward(
 	if err != nil {
 		return nil, fmt.Errorf("failed to exchange, %w", err)
 	}
+	// A reply to another question must not be relayed (nor cached) as the
+	// answer to q. A reply without question section is tolerated.
+	if !resp.Header.Response || len(resp.Questions) > 1 ||
+		(len(resp.Questions) == 1 && !sameQuestion(resp.Questions[0], q)) {
+		dnsmsg.ReleaseMsg(resp)
+		return nil, errUpstreamReplyMismatch
+	}
 	dnsmsg.RemoveEDNS0(resp)
 	return resp, nil
+}
+
+var errUpstreamReplyMismatch = errors.New("upstream reply does not match the query")
+
+// sameQuestion reports whether a and b are the same question. Names are
+// compared ascii-case-insensitively.
+func sameQuestion(a, b *dnsmsg.Question) bool {
+	if a.Type != b.Type || a.Class != b.Class || len(a.Name) != len(b.Name) {
+		return false
+	}
+	for i := range a.Name {
+		x, y := a.Name[i], b.Name[i]
+		if 'A' <= x && x <= 'Z' {
+			x += 'a' - 'A'
+		}
+		if 'A' <= y && y <= 'Z' {
+			y += 'a' - 'A'
+		}
+		if x != y {
+			return false
+		}
+	}
+	return true
 }
 
 func makeEmptyResp(q *dnsmsg.Question, rc *RequestContext, rcode uint16) {
